@@ -44,8 +44,13 @@ def main():
         tags = [t for t in tags if t in only or t.split("_")[0] in only]
     with ThreadPoolExecutor(max_workers=3) as ex:
         res = list(ex.map(run_one, tags))
-    if not only:
-        json.dump(res, open(os.path.join(HERE, "seed_results.json"), "w"), indent=1)
+    rp = os.path.join(HERE, "seed_results.json")
+    if only and os.path.exists(rp):          # partial run: merge into the recorded results
+        old = {r["tag"]: r for r in json.load(open(rp))}
+        old.update({r["tag"]: r for r in res})
+        json.dump([old[k] for k in sorted(old)], open(rp, "w"), indent=1)
+    else:
+        json.dump(res, open(rp, "w"), indent=1)
     for r in res:
         print("{tag} exit={exit} violations={violations} (without input {without_input}) caught_by={caught_by} {s}".format(
             s="OK" if r["ok"] else "NOT-CAUGHT", **{**dict(exit="-", violations=0, without_input=0, caught_by=[]), **r}))
